@@ -104,6 +104,8 @@ def feval(v, env):
             return feval(v.args[1], env) if fcond(v.args[0], env) else feval(v.args[2], env)
         if v.fn in ("fresh", "asarray"):
             return feval(v.args[0], env)
+        if v.fn == "getitem" and len(v.args) == 2 and all(i == Const(None) or (isinstance(i, App) and i.fn == "slice") for i in (v.args[1].items if hasattr(v.args[1], "items") else [v.args[1]])):
+            return feval(v.args[0], env)  # axis bookkeeping on a scalar representative
     raise CannotEvaluate("float evaluation of %s" % (v.fn if isinstance(v, App) else type(v).__name__))
 
 
